@@ -11,6 +11,7 @@ static const char *CLS[] = { "ok", "num_words", "lang", "checksum", "unsupported
 static const unsigned char ALPHA[9] = { 'a', ' ', 0xC3, 0xA9, 0xCC, 0x81, 0xE3, 0x80, 0xFF };
 static polyseed_data *SEED; static uint8_t SEED_ST[32];
 static int EXPL[4] = { 0, 1, 3, 8 };
+static const unsigned DMASK[3] = { 7, 0, 2 };
 
 static void feed(const char *s, size_t len, struct res *r, uint64_t id, int do_crypt) {
     /* the string lives in an exactly sized heap block so that ASan sees any read past the terminator */
@@ -20,7 +21,9 @@ static void feed(const char *s, size_t len, struct res *r, uint64_t id, int do_c
     extern char *G_cur; if (G_cur) { strncpy(G_cur, rep, 1999); G_cur[1999] = 0; }
     alarm(20);
     r->cases++;
-    unsigned coin = (id & 1) ? ((unsigned)((id * 2654435761u) >> 7) & 2047) : 0;     /* odd cases get their own coin value, even ones coin 0 (so that valid phrases reach the later stages) */
+    unsigned coin = (id & 1) ? ((unsigned)((id * 2654435761u) >> 7) & 2047) : 0;
+    unsigned fmask = (id >> 40) == 3 ? DMASK[((id & 0xFFFFFFFFu) / 640) % 3] : 7;      /* family d runs under three enabled masks */
+    if (fmask != 7) polyseed_enable_features(fmask);     /* odd cases get their own coin value, even ones coin 0 (so that valid phrases reach the later stages) */
     for (int k = -1; k < 4; k++) {
         polyseed_data *d = NULL; const polyseed_lang *lo = NULL; int li = k < 0 ? -1 : EXPL[k];
         env_clear_log();
@@ -30,8 +33,8 @@ static void feed(const char *s, size_t len, struct res *r, uint64_t id, int do_c
         if (st < 0 || st > 7 || st == POLYSEED_ERR_FORMAT) { snprintf(key, sizeof key, "c14:status-range:%d", st); res_viol(r, key, rep, "decoder returned undocumented status %d", st); goto out; }
         r->cls[st]++;
         if (memcmp(in, keep, len + 1)) { res_viol(r, "c14:input-modified", rep, "decoder modified its input"); goto out; }
-        if (ledger_live() != 1 || E.err_foreign_free || E.err_free_null) { res_viol(r, "c14:ledger", rep, "after the call: %d blocks live besides the harness seed, foreign frees %d", ledger_live() - 1, E.err_foreign_free); goto out; }
-        int want = ref_decode(in, coin, li, 7, 0, CAP, NULL, NULL);
+        if (ledger_live() != 1 || E.err_foreign_free || E.err_free_null) { res_viol(r, "c14:ledger", rep, "after the call (status %d): %d blocks live besides the harness seed, foreign frees %d", st, ledger_live() - 1, E.err_foreign_free); ledger_drop_all(); SEED = NULL; polyseed_load(SEED_ST, &SEED); goto out; }
+        int want = ref_decode(in, coin, li, fmask, 0, CAP, NULL, NULL);
         if (k < 0) {   /* lang_out is optional */
             polyseed_data *d2 = NULL; int st2 = polyseed_decode(in, (polyseed_coin)coin, NULL, &d2); r->calls++; if (st2 == POLYSEED_OK) polyseed_free(d2);
             if (st2 != st) { res_viol(r, "c14:null-lang-out", rep, "polyseed_decode with lang_out = NULL returned %d, with a pointer %d", st2, st); goto out; }
@@ -58,6 +61,7 @@ static void feed(const char *s, size_t len, struct res *r, uint64_t id, int do_c
     r->validated++;
 out:
     alarm(0);
+    if (fmask != 7) polyseed_enable_features(7);
     free(in); free(keep);
 }
 /* (a) */
@@ -113,6 +117,22 @@ static void work_c(long lo, long hi, struct res *r, void *arg) {
     if (r->nsample < 1 && lo < hi) res_sample(r, "lengths 0..2*sizeof(polyseed_str)+80 of 'a', 'a ', e-acute; a non-ASCII character at every offset for lengths around the buffer size; 17th token across the cut; token counts x token lengths");
 }
 
+/* (d) well-formed phrases (16 known words, valid check word for the coin) of seeds with every one of the 32 feature values, in every
+ * language, under three enabled masks: the refusal of a seed whose features are not enabled is a failed call like any other */
+static void work_d(long lo, long hi, struct res *r, void *arg) {
+    (void)arg;
+    for (long x = lo; x < hi; x++) {
+        uint64_t id = (3ull << 40) + (uint64_t)x; unsigned coin = (id & 1) ? ((unsigned)((id * 2654435761u) >> 7) & 2047) : 0;
+        unsigned f = (unsigned)(x % 32); int li = (int)((x / 32) % R_NLANG); int v = (int)((x / 320) % 2);
+        rseed s; for (int i = 0; i < 19; i++) s.secret[i] = (uint8_t)(x * 7 + i * 13 + v * 101); s.secret[18] &= 0x3F; s.birthday = (unsigned)(x * 37) & 1023; s.features = f;
+        char ph[2048]; size_t n = ref_phrase(&s, li, coin, ph, v ? 2 : 0);
+        EXPL[3] = li;
+        feed(ph, n, r, id, 0);
+        EXPL[3] = 8;
+    }
+    if (r->nsample < 1 && lo < hi) res_sample(r, "valid phrases of seeds with feature values 0..31 x 10 languages x enabled masks 7, 0, 2 (as emitted and decomposed)");
+}
+
 int main(int argc, char **argv) {
     int a = common_args(argc, argv);
     ref_init(VERIF_ROOT); sec_mark_initial(); env_init(); inject(0); polyseed_enable_features(7);
@@ -122,6 +142,7 @@ int main(int argc, char **argv) {
     for (int li = 0; li < R_NLANG; li++) for (int w = 0; w < 3; w++) { char ph[2048]; ref_phrase(&base, li, 0, ph, 2); int sp = 0; size_t i; for (i = 0; ph[i]; i++) if (ph[i] == ' ' && ++sp == 14 + w) break; ph[i] = 0; strcpy(PRE[li][w], ph); }
     if (a < argc && !strcmp(argv[a], "case")) {
         static char s[1400]; int n = unhexn(argv[a + 2], (uint8_t *)s, sizeof s - 1); if (n < 0) n = 0;
+        { uint64_t id = strtoull(argv[a + 1], NULL, 10); if ((id >> 40) == 3) EXPL[3] = (int)(((id & 0xFFFFFFFFu) / 32) % R_NLANG); }
         feed(s, (size_t)n, r, strtoull(argv[a + 1], NULL, 10), 1);
         for (int i = 0; i < r->nviol; i++) printf("REPRODUCED %s: %s\n", r->v[i].key, r->v[i].msg); return r->nviol ? 1 : 0;
     }
@@ -133,6 +154,7 @@ int main(int argc, char **argv) {
     par_run(na, work_a, NULL, r); out_part("a: all strings up to the length bound over the 9-byte alphabet", r, CLS, "");
     memset(r, 0, sizeof *r); par_run(nb * 3 * R_NLANG, work_b, NULL, r); out_part("b: valid 14-, 15- and 16-token phrases of every language + every tail", r, CLS, "");
     memset(r, 0, sizeof *r); par_run(6L * (2 * (long)PSTR + 80), work_c, NULL, r); out_part("c: boundary-length families", r, CLS, "");
+    memset(r, 0, sizeof *r); par_run(1920, work_d, NULL, r); out_part("d: well-formed phrases with each of the 32 feature values, every language, three enabled masks", r, CLS, "");
     out_kv_int("alphabet", 9); out_kv_int("max_len_a", LMAX); out_kv_int("max_tail_b", LB);
     out_end();
     return 0;
